@@ -14,8 +14,16 @@
       in between by one";
     - [Visited L s a p v]: [v] is the number of nodes of a state reached from
       [s] in which the moved variable sits at level [p].
-    The only error outcome is [Err EOracle] (iteration-order oracle of the
-    model; no Python counterpart). *)
+    The error outcomes are [Err EOracle] (iteration-order oracle of the
+    model; no Python counterpart) and, with a bounded table, [Err ERuntime]:
+    a swap refused by the full-table pre-check ([RuntimeError] of dd, raised
+    BEFORE the swap writes anything).  The theorems that describe a completed
+    reordering list it as a possible outcome; what the manager looks like then
+    (it is the state between two swaps: [Stp]) is the content of the SAFETY
+    theorems [C07b_reorder_safe], [C07b_reorder_pub_safe], [C07b_apply_sifting_safe],
+    which hold for every outcome; with an unbounded table ([max_nodes = None])
+    the outcome is excluded ([C07b_unbounded]).
+    [rr s := (rctx s, roots s, max_nodes s)]. *)
 From DD Require Import Sift9.
 
 (** one adjacent swap, arguments in either order *)
@@ -23,6 +31,7 @@ Theorem C07b_swap_adj L s al i j r s' :
   Gd L s → levels_ok s al → j = i + 1 ∨ i = j + 1 → i < nvars s → j < nvars s →
   swap i j (Some al) s = (r, s') →
   r = Err EOracle ∨
+  (r = Err ERuntime ∧ s' = s ∧ is_Some (max_nodes s)) ∨
   ∃ al', r = Ok ((len s, len s'), al') ∧ Stp L s s' ∧ levels_ok s' al' ∧
          vperm (tp i j) s s'.
 Proof. exact (swap_adj L s al i j r s'). Qed.
@@ -40,7 +49,7 @@ Theorem C07b_shift_loop L s0 a (down : bool) : Inv s0 → ∀ n i al sizes s r s
   (if down then a ≤ i ∧ i + n < nvars s0 else i ≤ a ∧ n ≤ i ∧ i < nvars s0) →
   (∀ p v, (p, v) ∈ sizes → Visited L s0 a p v) →
   shift_loop n i down al sizes s = (r, s') →
-  r = Err EOracle ∨
+  r = Err EOracle ∨ r = Err ERuntime ∨
   ∃ sizes' al', r = Ok (sizes', al') ∧ Stp L s0 s' ∧ levels_ok s' al' ∧
     vperm (mv a (if down then i + n else i - n)) s0 s' ∧
     (∀ p v, (p, v) ∈ sizes' → Visited L s0 a p v) ∧
@@ -52,7 +61,7 @@ Proof. exact (shift_loop_spec L s0 a down). Qed.
 Theorem C07b_shift L s a e al r s' :
   Gd L s → levels_ok s al → a < nvars s → e < nvars s →
   shift a e al s = (r, s') →
-  r = Err EOracle ∨
+  r = Err EOracle ∨ r = Err ERuntime ∨
   ∃ sizes al', r = Ok (sizes, al') ∧ Stp L s s' ∧ levels_ok s' al' ∧
     vperm (mv a e) s s' ∧
     (∀ p v, (p, v) ∈ sizes → Visited L s a p v) ∧
@@ -65,7 +74,7 @@ Theorem C07b_vperm_exact π s s' :
   vperm π s s' → nvars s' = nvars s → vars s' = π <$> vars s.
 Proof. exact (vperm_fmap π s s'). Qed.
 
-(** the reordering functions never touch [_reordering_context] nor [roots] *)
+(** the reordering functions never touch [_reordering_context], [roots] nor [max_nodes] *)
 Theorem C07b_frame o : pres (reorder o).
 Proof. exact (pres_reorder o). Qed.
 
@@ -77,7 +86,7 @@ Theorem C07b_sort_to_order order s L r s' :
   (∀ v l, order !! v = Some l → l < nvars s) →
   (∀ u, u ∈ roots s → held L u) →
   sort_to_order order s = (r, s') →
-  r = Err EOracle ∨
+  r = Err EOracle ∨ r = Err ERuntime ∨
   (r = Ok tt ∧ Stp L s s' ∧ vars s' = order ∧ rr s' = rr s).
 Proof. exact (sort_to_order_correct order s L r s'). Qed.
 
@@ -91,7 +100,7 @@ Theorem C07b_reorder_to_pairs pairs s L r s' :
   NoDup (pairs.*1 ++ pairs.*2) →
   (∀ v, v ∈ pairs.*1 ++ pairs.*2 → is_Some (vars s !! v)) →
   reorder_to_pairs pairs s = (r, s') →
-  r = Err EOracle ∨
+  r = Err EOracle ∨ r = Err ERuntime ∨
   (r = Ok tt ∧ Stp L s s' ∧ dom (vars s') = dom (vars s) ∧ rr s' = rr s ∧
    ∀ x y, (x, y) ∈ pairs → adj s' x y).
 Proof. exact (reorder_to_pairs_correct pairs s L r s'). Qed.
@@ -107,7 +116,7 @@ Proof. exact (size_determined L s1 s2). Qed.
 Theorem C07b_reorder_var L s var al r s' :
   Gd L s → nozero s → levels_ok s al → is_Some (vars s !! var) →
   reorder_var var al s = (r, s') →
-  r = Err EOracle ∨
+  r = Err EOracle ∨ r = Err ERuntime ∨
   ∃ k al' lv, r = Ok (k, al') ∧ vars s !! var = Some lv ∧
     Stp L s s' ∧ levels_ok s' al' ∧ vperm (mv lv k) s s' ∧ len s' ≤ len s.
 Proof. exact (reorder_var_spec L s var al r s'). Qed.
@@ -116,7 +125,7 @@ Proof. exact (reorder_var_spec L s var al r s'). Qed.
 Theorem C07b_apply_sifting s L r s' :
   Inv s → Counts s L → last_len s = None →
   apply_sifting s = (r, s') →
-  r = Err EOracle ∨
+  r = Err EOracle ∨ r = Err ERuntime ∨
   (r = Ok tt ∧ Gd L s' ∧ nozero s' ∧ rr s' = rr s ∧
    dom (vars s') = dom (vars s) ∧ keepsH L s s' ∧ len s' ≤ len s).
 Proof. exact (apply_sifting_spec s L r s'). Qed.
@@ -124,6 +133,17 @@ Proof. exact (apply_sifting_spec s L r s'). Qed.
 (** the premise of the decorator theorems of [Proofs/Dynamic.v] *)
 Theorem C07b_sifting_ok' : sifting_ok'.
 Proof. exact sifting_ok'_holds. Qed.
+
+(** sifting stopped by a full table: the manager is the one between two swaps *)
+Theorem C07b_apply_sifting_safe s L r s' :
+  Gd L s → apply_sifting s = (r, s') →
+  r = Err EOracle ∨ (Stp L s s' ∧ dom (vars s') = dom (vars s) ∧ rr s' = rr s).
+Proof. exact (apply_sifting_safe s L r s'). Qed.
+
+(** with an unbounded table no reordering function raises the full-table error *)
+Theorem C07b_unbounded o s r s' :
+  max_nodes s = None → reorder_pub o s = (r, s') → max_nodes s' = None ∧ r ≠ Err ERuntime.
+Proof. exact (nft_reorder_pub o s r s'). Qed.
 
 (** [reorder] with ANY argument never damages the manager *)
 Theorem C07b_reorder_safe o s L r s' :
@@ -142,7 +162,7 @@ Proof. exact (reorder_pub_safe o s L r s'). Qed.
 
 Theorem C07b_reorder_pub_sift s L r s' :
   Inv s → Counts s L → reorder_pub None s = (r, s') →
-  r = Err EOracle ∨
+  r = Err EOracle ∨ r = Err ERuntime ∨
   (r = Ok tt ∧ Inv s' ∧ Counts s' L ∧ last_len s' = last_len s ∧ nozero s' ∧
    dom (vars s') = dom (vars s) ∧ keepsH L s s' ∧ rr s' = rr s ∧ len s' ≤ len s).
 Proof. exact (reorder_pub_sift s L r s'). Qed.
@@ -154,7 +174,7 @@ Theorem C07b_reorder_pub_order order s L r s' :
   (∀ v l, order !! v = Some l → l < nvars s) →
   (∀ u, u ∈ roots s → held L u) →
   reorder_pub (Some order) s = (r, s') →
-  r = Err EOracle ∨
+  r = Err EOracle ∨ r = Err ERuntime ∨
   (r = Ok tt ∧ Inv s' ∧ Counts s' L ∧ last_len s' = last_len s ∧ vars s' = order ∧
    keepsH L s s' ∧ rr s' = rr s).
 Proof. exact (reorder_pub_order order s L r s'). Qed.
@@ -164,7 +184,7 @@ Theorem C07b_reorder_to_pairs_pub pairs s L r s' :
   NoDup (pairs.*1 ++ pairs.*2) →
   (∀ v, v ∈ pairs.*1 ++ pairs.*2 → is_Some (vars s !! v)) →
   reorder_to_pairs_pub pairs s = (r, s') →
-  r = Err EOracle ∨
+  r = Err EOracle ∨ r = Err ERuntime ∨
   (r = Ok tt ∧ Inv s' ∧ Counts s' L ∧ last_len s' = last_len s ∧
    dom (vars s') = dom (vars s) ∧ keepsH L s s' ∧ rr s' = rr s ∧
    ∀ x y, (x, y) ∈ pairs → adj s' x y).
@@ -183,7 +203,7 @@ Proof. exact (reorder_pub_keeps_held o s L r s'). Qed.
 
 (** the premise of the JSON loader with [load_order=True] *)
 Theorem C07b_reorder_order_ok order s L :
-  Inv s → Counts s L → last_len s = None → tape s = [] →
+  Inv s → Counts s L → last_len s = None → tape s = [] → max_nodes s = None →
   dom order = dom (vars s) →
   (∀ v v' l, order !! v = Some l → order !! v' = Some l → v = v') →
   (∀ v l, order !! v = Some l → l < nvars s) →
@@ -194,7 +214,7 @@ Theorem C07b_reorder_order_ok order s L :
 Proof. exact (reorder_order_ok order s L). Qed.
 
 Theorem C07b_sifting_notape s L :
-  Inv s → Counts s L → last_len s = None → tape s = [] →
+  Inv s → Counts s L → last_len s = None → tape s = [] → max_nodes s = None →
   ∃ s', reorder None s = (Ok tt, s') ∧ Inv s' ∧ Counts s' L ∧ last_len s' = None ∧
     nozero s' ∧ rr s' = rr s ∧ dom (vars s') = dom (vars s) ∧ keepsH L s s' ∧
     len s' ≤ len s ∧ tape s' = [].
